@@ -35,11 +35,21 @@ mod adjacent;
 mod algo;
 
 use crate::error::Error;
+#[cfg(not(feature = "gdsl_verif"))]
 use std::{
     fmt::Display,
     hash::Hash,
     ops::Deref,
     sync::{Arc, RwLock, Weak},
+};
+#[cfg(feature = "gdsl_verif")]
+use crate::verif_hook::RwLock;
+#[cfg(feature = "gdsl_verif")]
+use std::{
+    fmt::Display,
+    hash::Hash,
+    ops::Deref,
+    sync::{Arc, Weak},
 };
 
 use self::{
